@@ -12,6 +12,7 @@ import (
 	"runtime"
 	"sync"
 	"sync/atomic"
+	"time"
 
 	"github.com/fullstorydev/emulators/bigtable/bttest"
 )
@@ -37,7 +38,7 @@ func (c Case) coq() string {
 const btPrelude = `From Coq Require Import List NArith ZArith.
 Import ListNotations.
 From Emu.Common Require Import Bytes Str.
-From Emu.BT Require Import Types Server Check.
+From Emu.BT Require Import Types Server Check EnumC03.
 `
 
 var tmpRoot string
@@ -114,10 +115,21 @@ func main() {
 	seed := flag.Int64("seed", 1, "PRNG seed")
 	out := flag.String("out", "", "output directory")
 	replay := flag.String("replay", "", "replay file (a JSON case)")
+	slice := flag.String("slice", "", "enumworker: i/n")
 	flag.Parse()
 	if *out == "" {
 		fmt.Fprintln(os.Stderr, "missing -out")
 		os.Exit(2)
+	}
+	if *prop == "enumworker" {
+		log.SetOutput(io.Discard)
+		tmpRoot = os.TempDir()
+		if st, err := os.Stat("/dev/shm"); err == nil && st.IsDir() {
+			tmpRoot, _ = os.MkdirTemp("/dev/shm", "verifbtw")
+		}
+		defer os.RemoveAll(tmpRoot)
+		enumWorker(*tier, *slice, *out)
+		return
 	}
 	tmpRoot = filepath.Join(*out, "tmp")
 	if st, err := os.Stat("/dev/shm"); err == nil && st.IsDir() {
@@ -134,6 +146,32 @@ func main() {
 	switch *prop {
 	case "C06":
 		genC06(*out, *tier, rng)
+	case "bench":
+		st, cleanup := engines()[1].mk()
+		e := NewEmu(st)
+		e.Exec(Call{Req: Req{Kind: "create", Parent: "p", Tid: "t", Fams: []FamDef{{Name: "f"}}}, Now: 1000})
+		for _, k := range enumUniverse {
+			e.Exec(Call{Req: Req{Kind: "mutate", Table: "p/tables/t", Key: k, Muts: []Mutation{{Kind: "set", Fam: "f", Q: []byte("q"), Ts: 1000, V: k}}}, Now: 1000})
+		}
+		t0 := time.Now()
+		runEnumBlock(e, "p/tables/t", 300, 200, []int64{0, 2}, "x")
+		fmt.Println("3200 requests:", time.Since(t0))
+		cleanup()
+		for _, w := range []int{1, 4, 16} {
+			t1 := time.Now()
+			parallelN(w, 16, func(i int) {
+				st, cleanup := engines()[1].mk()
+				defer cleanup()
+				e := NewEmu(st)
+				e.Exec(Call{Req: Req{Kind: "create", Parent: "p", Tid: "t", Fams: []FamDef{{Name: "f"}}}, Now: 1000})
+				for _, k := range enumUniverse {
+					e.Exec(Call{Req: Req{Kind: "mutate", Table: "p/tables/t", Key: k, Muts: []Mutation{{Kind: "set", Fam: "f", Q: []byte("q"), Ts: 1000, V: k}}}, Now: 1000})
+				}
+				runEnumBlock(e, "p/tables/t", 300, 200, []int64{0, 2}, "x")
+			})
+			fmt.Println(w, "workers, 16 blocks of 3200:", time.Since(t1))
+		}
+		return
 	case "C18":
 		genC18(*out, *tier, rng)
 	case "C16":
